@@ -75,7 +75,9 @@ class FnSpec:
     lifts: List[Lift] = field(default_factory=list)
     substs: List[Tuple[str, str]] = field(default_factory=list)
     foreach: List[int] = field(default_factory=list)
-    desugar_try: List[str] = field(default_factory=list)   # ordinals of `?` operators (or `all`) rewritten by rule R10
+    desugar_try: List[str] = field(default_factory=list)
+    folds: List[int] = field(default_factory=list)          # ordinals of `.fold(` calls rewritten by rule R14
+    scans: List[int] = field(default_factory=list)          # ordinals of `.position(` calls rewritten by rule R13   # ordinals of `?` operators (or `all`) rewritten by rule R10
     no_canary: bool = False
     stub: str = ""                 # leaf whose body is not emitted (contract proved in another unit / body not compilable alone)
     attrs: List[str] = field(default_factory=list)
@@ -268,6 +270,10 @@ def parse(path: str) -> UnitSpec:
             cur.substs.append((a.strip(), b.strip()))
         elif head == "desugar_try":
             cur.desugar_try = rest.split()
+        elif head == "fold":
+            cur.folds += [int(x) for x in rest.split()]
+        elif head == "scan":
+            cur.scans += [int(x) for x in rest.split()]
         elif head == "foreach":
             cur.foreach.append(int(rest))
         else:
